@@ -10,6 +10,9 @@ a result `g : Chain` has `g.start`, `g.nodes` (key ↦ node; `alook k g.nodes` i
 import CV.Proofs.ChainTop
 import CV.Proofs.ChainCongr
 import CV.Proofs.ChainTotal
+import CV.Proofs.ChainEntry
+import CV.Proofs.ChainRedirect
+import CV.Proofs.ChainEval
 set_option linter.unusedVariables false
 namespace CV.Chain
 
@@ -37,6 +40,14 @@ theorem compile_never_internal (es : Entries) (cx : Ctx) (w : String) : compile 
   intro h
   have := compile_never_internal' es cx _ h
   simp [Err.isInternal] at this
+
+/-- Success characterised: a well-formed request compiles as soon as assembly succeeds, the cycle detector
+    passes and the protocol permits the routing features used — the later passes cannot fail. -/
+theorem compile_succeeds (es : Entries) (cx : Ctx) (st : St) (start : String)
+    (hreq : ¬ (cx.svc = "" ∨ cx.ns = "" ∨ cx.part = "" ∨ cx.dc = "" ∨ cx.td = ""))
+    (ha : assemble es cx = .ok (st, start)) (hd : dfsNode st.nodes [] start = .ok ())
+    (hadv : (!httpLike st.proto && st.adv) = false) : ∃ g, compile es cx = .ok g ∧ g.start = start :=
+  compile_ok_of es cx st start hreq ha hd hadv
 
 /-- What `assembleChain` hands to the later passes: unique node keys, the start node, every `NextNode`
     present, every node reachable from the start node. -/
@@ -106,20 +117,48 @@ theorem no_unused_nodes (es : Entries) (cx : Ctx) (g : Chain) (h : compile es cx
 
 /-! ## cycles are errors -/
 
-/-- FULL STATEMENT (DESIGN §5 C15), not proved in this form: "a splitter / router reference cycle or a
-    redirect cycle *among the entries* reachable from the service makes `compile` return a circular-…
-    error". What is proved: (1) below, at the level of the graph `assembleChain` builds from the entries
-    — if that graph has a cycle reachable from the start node, compilation returns exactly the
-    circular-reference error and the cycle is never followed (missing: the characterisation of the
-    assembled edges in terms of the entries; if assembly itself fails, the result is that earlier
-    error); (2) `redirect_revisit_is_error` above for the redirect loop. The entry-level statement is
-    checked on the implementation by the harness monitors `cycles:splitter-cycle-compiled` /
-    `cycles:redirect-cycle-compiled`. -/
+/-- ENTRY LEVEL, splitters. `SEdge es a b`: the splitter entry of `a` has a leg to another service `b`
+    without a subset and `b` has a splitter entry (exactly the legs `getSplitterNode` follows);
+    `SReach` is its reflexive-transitive closure. If the compiled service has a splitter entry (and no
+    router entry; routers are ignored anyway under a non-HTTP protocol override, as are splitters) and
+    a reference cycle among the splitter entries is reachable from it, compilation fails: with the
+    circular-reference error, unless assembling the chain already failed with another graph error
+    (protocol mismatch, missing subset, …), which is then the answer. The cycle is never followed. -/
+theorem cycles_are_errors (es : Entries) (cx : Ctx) (a b : String)
+    (hreq : ¬ (cx.svc = "" ∨ cx.ns = "" ∨ cx.part = "" ∨ cx.dc = "" ∨ cx.td = ""))
+    (hadv : disableAdv cx = false) (hrt : alook cx.svc es.routers = none)
+    (hsp : (alook cx.svc es.splitters).isSome = true)
+    (hr : SReach es cx.svc a) (he : SEdge es a b) (hback : SReach es b a) :
+    compile es cx = .error .circularRef ∨ ∃ e, assemble es cx = .error e ∧ compile es cx = .error e :=
+  entry_splitter_cycle es cx a b hreq hadv hrt hsp hr he hback
+
+/-- GRAPH LEVEL (also covers chains that enter through a router): if the graph `assembleChain` builds
+    has a cycle reachable from the start node, the answer is exactly the circular-reference error.
+    Not lifted to the entries for routers: which splitter a *route* enters depends on `newTarget`'s
+    memo by ID string (`structs.ChainID` is not injective), not on the entries alone. -/
 theorem cycles_are_errors_partial (es : Entries) (cx : Ctx) (st : St) (start k : String)
     (hreq : ¬ (cx.svc = "" ∨ cx.ns = "" ∨ cx.part = "" ∨ cx.dc = "" ∨ cx.td = ""))
     (ha : assemble es cx = .ok (st, start)) (hr : Reach st.nodes start k) (hc : Reach1 st.nodes k k) :
     compile es cx = .error .circularRef :=
   compile_cycle_error es cx st start k hreq ha hr hc
+
+/-- ENTRY LEVEL, redirects. `loopStep es cx st t` is one jump of `RESOLVE_AGAIN` read off the entries (the
+    resolver entry of `t`'s service: its `Redirect`, else its `DefaultSubset`); `Revisit … steps` says that
+    following these jumps from the start target through `steps` arrives at a target whose ID was already
+    visited. Then the loop answers with the circular-redirect error instead of following the cycle … -/
+theorem redirect_cycle_is_error (es : Entries) (cx : Ctx) (st0 : St) (t0 : Target) (steps : List (St × Target))
+    (hist : List Target) (st : St) (t : Target) (hst : LoadedIn (mkVals es cx st0 t0) st) (ht : InU (mkVals es cx st0 t0) t)
+    (h : Revisit es cx hist (st, t) steps) :
+    resolveLoop es cx st0 t0 st hist t hst ht = .error .circularRedirect :=
+  revisit_is_error es cx st0 t0 steps hist st t hst ht h
+
+/-- … and so does the compilation of a service whose chain starts at its own resolver. -/
+theorem redirect_cycles_are_errors (es : Entries) (cx : Ctx) (steps : List (St × Target))
+    (hreq : ¬ (cx.svc = "" ∨ cx.ns = "" ∨ cx.part = "" ∨ cx.dc = "" ∨ cx.td = ""))
+    (hrt : alook cx.svc es.routers = none) (hsp : alook cx.svc es.splitters = none)
+    (hrev : Revisit es cx [] (newTarget cx {} { svc := cx.svc }) steps) :
+    compile es cx = .error .circularRedirect :=
+  compile_redirect_cycle es cx steps hreq hrt hsp hrev
 
 /-! ## deterministic -/
 
@@ -281,6 +320,66 @@ theorem rejected_delete_unchanged (S : Entries) (k : Kind) (n : String) (h : del
     afterDelete S k n = S := by simp [afterDelete, h]
 
 /-! ## non-vacuity -/
+
+/-! Kernel-checked witnesses (no `#guard`): `compile` cannot be evaluated by the kernel (well-founded
+    recursion over a measure of astronomical size), so these go through unfolding lemmas with variable
+    arguments (CV/Proofs/ChainEval.lean) and decidable side conditions on the plain helper functions. -/
+
+def wCtx : Ctx := { svc := "a" }
+def wT : Target := ⟨"a", "", "default", "default", "dc1", ""⟩
+def wTb : Target := ⟨"b", "", "default", "default", "dc1", ""⟩
+def wSt : St := { loaded := [("a.default.default.dc1", { t := wT })] }
+def wSt1 : St := { wSt with proto := "tcp" }
+
+theorem wNewTarget : newTarget wCtx {} { svc := wCtx.svc } = (wSt, wT) := by decide
+
+/-- a successful compilation exists: the hypotheses of `compile_closed`, `every_path_ends_in_resolver`,
+    `compile_flat`, `no_unused_nodes` are satisfiable (no entries at all: the default chain of `a`) -/
+theorem compile_ok_witness : ∃ g, compile {} wCtx = .ok g ∧ g.start = rkey wT.id := by
+  have hloop : resolveLoop {} wCtx wSt wT wSt [] wT (vals_loaded _ _ _ _) (vals_t _ _ _ _) =
+      .ok (wSt1, .fresh wT (getResolver {} wT.svc)) :=
+    resolveLoop_stop {} wCtx wSt wT wSt [] wT _ _ "tcp" wSt1 (by decide) (by rfl) (by decide) (by decide) (by decide)
+  have hfin : ∃ f : St × Node, finishResolve {} wCtx wSt1 wT (getResolver {} wT.svc) = .ok f ∧ f.1.nodes = [] ∧
+      (∃ d ct rt lb, f.2 = .resolver d ct rt wT.id [] lb) ∧ f.1.adv = false := by
+    rw [finishResolve]
+    have h0 : (wT.subset ≠ "" && !(getResolver {} wT.svc).subsetExists wT.subset) = false := by decide
+    have h1 : (decorate {} wCtx wSt1 wT (getResolver {} wT.svc)).1.external = false := by decide
+    simp only [h0, h1, Bool.false_and, Bool.false_eq_true, if_false]
+    exact ⟨_, rfl, rfl, ⟨_, _, _, _, rfl⟩, rfl⟩
+  obtain ⟨⟨f1, f2⟩, hf, hn, ⟨d, ct, rt, lb, hnode⟩, hadv⟩ := hfin
+  simp only at hn hnode hadv
+  subst hnode
+  have hcore := resolveCore_fresh_eq {} wCtx wSt wSt1 f1 wT wT _ _ hloop hf
+  have hrn := resolverNode_nofailover {} wCtx wSt f1 wT wT _ _ _ hcore (by decide)
+  have hsor := splitterOrResolver_resolver {} wCtx [] wSt wSt _ wT [] _ (splitterNode_absent {} wCtx wSt wT.svc (by decide)) hrn
+  have hasm := assemble_norouter {} wCtx [] _ _ (by decide) (by rw [wNewTarget]; exact hsor)
+  refine compile_ok_of {} wCtx _ _ (by decide) hasm ?_ ?_
+  · apply dfs_resolver_start _ _ d ct rt wT.id [] lb
+    simp only [hn, List.nil_append, alook, Node.withFailover, if_true]
+  · simp only [hadv, Bool.and_false]
+
+/-- resolvers `a` and `b` redirecting to each other -/
+def wRedirect : Entries :=
+  { resolvers := [("a", { redirect := some { svc := "b" } }), ("b", { redirect := some { svc := "a" } })] }
+def wSt2 : St :=
+  { loaded := [("a.default.default.dc1", { t := wT }), ("b.default.default.dc1", { t := wTb })], proto := "tcp" }
+
+/-- the redirect cycle a → b → a is answered with the circular-redirect error (hypotheses of
+    `redirect_cycles_are_errors` are satisfiable; the conclusion is a kernel-checked compile result) -/
+theorem redirect_cycle_witness : compile wRedirect wCtx = .error .circularRedirect := by
+  apply redirect_cycles_are_errors wRedirect wCtx [(wSt2, wTb), (wSt2, wT)] (by decide) (by decide) (by decide)
+  have e : newTarget wCtx {} { svc := wCtx.svc } = (wSt, wT) := by decide
+  rw [e]
+  exact ⟨by decide, by decide, ⟨by decide, by decide, ⟨⟨wT, by decide, rfl⟩, by decide, "tcp", by rfl⟩⟩⟩
+
+/-- splitters `a` → `b` → `a`: the hypotheses of `cycles_are_errors` are satisfiable -/
+def wSplitCycle : Entries := { splitters := [("a", [⟨10000, "b", ""⟩]), ("b", [⟨10000, "a", ""⟩])] }
+
+theorem splitter_cycle_witness :
+    compile wSplitCycle wCtx = .error .circularRef ∨ ∃ e, assemble wSplitCycle wCtx = .error e ∧ compile wSplitCycle wCtx = .error e :=
+  cycles_are_errors wSplitCycle wCtx "a" "b" (by decide) (by decide) (by decide) (by decide) (SReach.refl _)
+    ⟨[⟨10000, "b", ""⟩], ⟨10000, "b", ""⟩, by decide, by decide, by decide, by decide, by decide, by decide⟩
+    (SReach.step (SReach.refl _) ⟨[⟨10000, "a", ""⟩], ⟨10000, "a", ""⟩, by decide, by decide, by decide, by decide, by decide, by decide⟩)
 
 /-- entries of the examples: `a` splits 50/50 between `b` and its own subset `v1`; `b` redirects to `c` -/
 def exEntries : Entries :=
